@@ -13,7 +13,7 @@ exactly one of them runs at any time.  Every primitive operation on shared state
   manager._threads  [0] / append / remove / in   (list subclass)
   backend: PyAudio.open, Stream.stop_stream/start_stream/close, _portaudio.write_stream,
            PyAudio.terminate, PyAudio._streams (read by the assert in close)
-  AudioThread.start, AudioThread.join
+  AudioThread.start, AudioThread.join, AudioThread.is_alive (read by AudioIO.play)
 
 A thread arriving at a yield point registers the operation it is about to perform (`pending`, with
 its enabledness predicate), and the scheduler decides which thread performs its pending operation
@@ -32,7 +32,7 @@ WATCHDOG = 5.0       # seconds a thread waits for the baton before the schedule 
 OPS = ["acquire", "release", "ev_set", "ev_clear", "ev_is_set", "ev_wait", "halting_read",
        "halting_write", "threads_get0", "threads_append", "threads_remove", "threads_contains",
        "open", "write", "stop_stream", "start_stream", "close_stream", "terminate", "streams_read",
-       "start", "join"]
+       "start", "join", "is_alive"]
 OPCODE = dict((n, i) for i, n in enumerate(OPS))
 
 
@@ -451,7 +451,14 @@ def install():
       return tid is not None and e.sched.ctls[tid].done
     e.sched.op("join", lambda: None, en)
 
-  AT.__init__, AT.start, AT.run, AT.join = __init__, start, run, join
+  def is_alive(self):
+    e = self.__dict__["_c17_env"]
+    def act():
+      tid = self.__dict__.get("_c17_tid")
+      return tid is not None and not e.sched.ctls[tid].done
+    return e.sched.op("is_alive", act)
+
+  AT.__init__, AT.start, AT.run, AT.join, AT.is_alive = __init__, start, run, join, is_alive
   _installed["ok"] = True
   _installed["lazy_io"] = lazy_io
   return lazy_io
@@ -502,6 +509,7 @@ def run_schedule(wait, script, choose, dfmt="f", max_steps=4000):
     return {"players": pl, "finished": bool(aio.finished), "hlock": bool(aio.halting._locked),
             "mlock": bool(aio.lock._locked),
             "threads": [e.players.index(t) for t in list.__iter__(aio._threads)],
+            "started": [e.players.index(t) for t in aio.__dict__.get("_started", [])],
             "terminated": e.terminated, "pending": pend}
 
   sched.on_end = snapshot
